@@ -23,7 +23,10 @@ RULE = ('(a) every string up to length L over the 26-character driving alphabet 
         'offsets, fenced verbatim blocks with comments and continuation lines) and the exhaustive small-statement '
         'tier, each under every layout of the catalogue and random compositions; (c) mutants of those scripts (token '
         'deletion / duplication / swap, bracket insertion / removal, stray characters); (d) a dedicated stream of the '
-        'inputs behind the known findings. distinct = distinct input text; non-trivial = the text contains at least one '
+        'inputs behind the known findings; (e) fenced verbatim blocks of every shape (46 bodies incl. compound, dangling and '
+        'module-level-only statements x 12 indentation / whitespace shapes x 3 contexts, fence-line variants). Around every '
+        'parse_model / build_model / build_model_definition call the process-global state is snapshotted (cheap subset per '
+        'call, full snapshot per batch and per call on the small streams). distinct = distinct input text; non-trivial = the text contains at least one '
         'term match or yields at least one statement')
 TRUSTED = ['CPython compile(): the syntax check of parse_model (since a900a8c it compiles, it no longer executes; a '
            'regression to exec() trips the canary and is a VIOLATION)',
@@ -32,7 +35,11 @@ TRUSTED = ['CPython compile(): the syntax check of parse_model (since a900a8c it
            'CPython compile()/exec() and str.format (the latter mirrored by pyFormat for automatic/manual positional '
            'fields; attribute/item access, conversions and format specs are outside the model and skipped)',
            'harness/parser_oracle.py canary (sentinel `self`/`CANARY` in fsic.parser globals, patched print/open)']
-ASSUMPTIONS = ['code points <= U+00FF for the \\b / \\w decisions of the model (isWordU); whitespace and line-break '
+ASSUMPTIONS = ['the syntax gate of parse_model is CPython compile() applied to each generated statement and to each verbatim '
+               'block ON ITS OWN (module level, no indentation context), while build_model places the same text inside a '
+               'method body; M2 does not model this gate (pyCompiles is a parameter) — the implication accepted => builds '
+               '=> instantiates is checked by the oracle over fenced blocks of every shape, not proved',
+               'code points <= U+00FF for the \\b / \\w decisions of the model (isWordU); whitespace and line-break '
                'classes are complete for Unicode',
                'of the symbol stage of parse_equation only the outcome class is modelled in M2 (symbolStage: function/'
                'variable clash, Symbol.combine type clash, exactly one endogenous variable); the symbols are M3',
@@ -42,7 +49,7 @@ ASSUMPTIONS = ['code points <= U+00FF for the \\b / \\w decisions of the model (
 META = {
     "text": "Model M2 (term_re scanner, split_equations_iter automaton incl. the unterminated-fence error, whitespace normalisation, int(), Term.__str__/code, str.format, parse_equation in the order of the code: brace count, braces outside matched terms, parse_equation_terms with the missing-'=' check, term spanning the '=', template/format, outcome class of the symbol loop, exactly-one-endogenous check) is total by construction (structural recursion only). Proved for all inputs: matchAt_consumes, scanTerms_spans (non-empty, ordered, disjoint spans inside the text), split_yields_checked, format_safe / format_cannot_fail (once the checks of parse_equation are passed the template has exactly one automatic field per term and both str.format calls succeed), and at FULL strength, without guards, parse_error_classes / parseScript_error_classes: every failure of parse_equation / of the statement loop on the model is ParserError, IndentationError or SymbolError. Composed with M3 (Pipeline.parseModelText = parse_model without the syntax check, tied to the code by driver kind parse_model_text): parseModelText_never_internal — for every text the result is symbols or ParserError/IndentationError/SymbolError, no hypothesis (M2's terms satisfy M3's WellIndexed guard, so TypeError/AssertionError of the symbol logic are unreachable) — and parseModelText_ok_symbols_wellformed (name iff not verbatim, lags None or <= 0, leads None or >= 0). The former failure witnesses ('Y = {0}', 'Y = {}', 'Y = {{X}}', a fenced block in parentheses without '=', 'Y`=`', '1 = X', 'log = log(X)', an unterminated fence) are proved to be rejected with ParserError.",
     "design_ref": "DESIGN.md §5 M2, §6 C13, §7 rows 8, 9, 10, 18",
-    "note": "Partial: CPython compile() (the syntax check of parse_model), the `re` engine and the symbols themselves (M3) are outside the proof; the model is tied to term_re/split_equations_iter/parse_equation by exhaustive strings (L<=4 quick, L<=5 thorough over the 26-character driving alphabet, longer over reduced alphabets), grammar scripts under all layouts (strict) and mutants (lenient: only the accepted / own-error / internal-error abstraction must agree; finer drift is reported as model_drift). The oracle runs the property on the real parse_model/build_model with a canary (sentinel `self`/`CANARY` in fsic.parser globals, patched print/open): a return to exec() is a violation. Nine C13 findings are fixed in /repo (a900a8c, b0dddfe, ce6705d, 3f601b8, d65c5fa); the oracle keys stay in the code so that a revert is reported.",
+    "note": "Partial: CPython compile() (the syntax check of parse_model), the `re` engine and the symbols themselves (M3) are outside the proof; the model is tied to term_re/split_equations_iter/parse_equation by exhaustive strings (L<=4 quick, L<=5 thorough over the 26-character driving alphabet, longer over reduced alphabets), grammar scripts under all layouts (strict) and mutants (lenient: only the accepted / own-error / internal-error abstraction must agree; finer drift is reported as model_drift). The oracle runs the property on the real parse_model/build_model inside a private working/temp directory with a canary (sentinel `self`/`CANARY` in fsic.parser globals, patched print/open: a return to exec() is a violation) and with snapshots of the process-global state around every call (warnings filters/hooks, numpy error state, sys.path/modules, cwd, environ, std streams, locale, decimal context, random and numpy.random state, linecache, builtins, open descriptors, files created, every module-level container / function cache / class attribute of the fsic modules) after a warm-up call; any key that differs is a violation `side-effect:<key>`. Fenced blocks of every indentation shape are generated for the clause accepted => build_model => instantiation. Nine C13 findings are fixed in /repo (a900a8c, b0dddfe, ce6705d, 3f601b8, d65c5fa); the oracle keys stay in the code so that a revert is reported.",
     "technique": "Lean 4 proof (structural recursion, single-step lemmas, shape invariant Auto preserved by the normalisation, span invariant) + exhaustive/differential correspondence check + property oracle with canary"
 }
 
@@ -112,14 +119,44 @@ def compare_texts(texts, rep, strict, stream):
                 rep.dist['disagreement:' + what] += 1
 
 
+FULL_STREAMS = ('findings', 'findings-wellformed', 'blocks', 'neighbourhood', 'replay')
+
+
 def oracle_texts(texts, rep, stream, expect_accept=False):
-    for s in texts:
-        def violate(key, what, s=s):
-            rep.violate(key, what, {'stream': stream, 'text': s})
-        tag = po.check(s, violate, rep.dist, expect_accept=expect_accept)
-        rep.dist[f'{stream}:outcome:{tag}'] += 1
-        rep.case((stream, s), nontrivial=(tag != 'own:ParserError' or '=' in s),
-                 sample={'stream': stream, 'text': s, 'outcome': tag} if zlib.crc32(s.encode()) % 9973 == 0 else None)
+    """The property oracle on every text, inside a private working/temp directory, with the process-global state
+    compared (a) around every single call (full snapshot for the small streams, the cheap subset for the
+    exhaustive ones) and (b) around the whole batch with the full snapshot; a batch-level difference that no single
+    call explained is localised by re-running the batch one input at a time with full snapshots."""
+    full = stream in FULL_STREAMS
+    with po.sandbox():
+        po.warm_up()
+        seen = set()
+        before = po.full_snapshot()
+        for s in texts:
+            def violate(key, what, s=s):
+                seen.add(key)
+                rep.violate(key, what, {'stream': stream, 'text': s})
+            tag = po.check(s, violate, rep.dist, expect_accept=expect_accept, full=full)
+            rep.dist[f'{stream}:outcome:{tag}'] += 1
+            rep.case((stream, s), nontrivial=(tag != 'own:ParserError' or '=' in s),
+                     sample={'stream': stream, 'text': s, 'outcome': tag} if zlib.crc32(s.encode()) % 9973 == 0 else None)
+        after = po.full_snapshot()
+        changed = [k for k in po.SE.diff(before, after) if 'side-effect:' + k not in seen]
+        if changed and not any(k.startswith('side-effect:') for k in seen):
+            found = False
+            for s in texts[:300]:    # localise: the first input whose single run (full snapshots) shows a change
+                hit = []
+                po.check(s, lambda key, what: hit.append((key, what)) if key.startswith('side-effect:') else None,
+                         None, expect_accept=False, full=True)
+                if hit:
+                    found = True
+                    for key, what in hit[:3]:
+                        rep.violate(key, what, {'stream': stream, 'text': s})
+                    break
+            if not found:
+                for k in changed:
+                    rep.violate('side-effect:' + k, f'process state {k} changed over a batch of {len(texts)} inputs: '
+                                + po.SE.describe(k, before, after), {'stream': stream, 'text': texts[0] if texts else ''})
 
 
 def w_texts(payload, rep):
@@ -261,6 +298,9 @@ def run(ctx, rep):
     for first in range(0, n_mut, 100):
         tasks.append(('c13:mutants', (f'{ctx.seed}:mut', first, min(100, n_mut - first), oo)))
     tasks.append(('c13:texts', ('findings', FINDING_INPUTS, 'exact', False, oo)))
+    blocks = [t for _, t in ts.block_scripts()]
+    for lo in range(0, len(blocks), 120):
+        tasks.append(('c13:texts', ('blocks', blocks[lo:lo + 120], False, False, oo)))
     tasks.append(('c13:texts', ('findings-wellformed', ['T = log(-(0.5 + 2))', 'Y = exp(-(1 + 2)) * X'], True, True, oo)))
     if not oo:
         tasks.append(('c13:aux', (0x3100 if quick else 0x110000, 5 if quick else 6)))
@@ -287,7 +327,7 @@ def search(ctx, rep, disagreements):
 def replay(ctx, rep, case):
     s = case['text']
     print('  text :', repr(s))
-    oracle_texts([s], rep, case.get('stream', 'replay'),
+    oracle_texts([s], rep, 'replay',
                  expect_accept=case.get('stream') in ('grammar', 'small', 'findings-wellformed'))
     try:
         outs = lc.drive([lc.line('scan', s), lc.line('split', s), lc.line('parse_equation_text', s)])
